@@ -379,14 +379,22 @@ def build(spec):
     np.random.seed(spec['npseed'])
     ctor = spec['ctor']
     if ctor == 'classical':
-        return pyamg.ruge_stuben_solver(sp.csr_array(A), **kw)
-    if ctor == 'sa':
-        return pyamg.smoothed_aggregation_solver(A, B=B, **kw)
-    if ctor == 'rootnode':
-        return pyamg.rootnode_solver(A, B=B, **kw)
-    if ctor == 'pairwise':
-        return pyamg.pairwise_solver(sp.csr_array(A), **kw)
-    raise KeyError(ctor)
+        ml = pyamg.ruge_stuben_solver(sp.csr_array(A), **kw)
+    elif ctor == 'sa':
+        ml = pyamg.smoothed_aggregation_solver(A, B=B, **kw)
+    elif ctor == 'rootnode':
+        ml = pyamg.rootnode_solver(A, B=B, **kw)
+    elif ctor == 'pairwise':
+        ml = pyamg.pairwise_solver(sp.csr_array(A), **kw)
+    else:
+        raise KeyError(ctor)
+    # call history on the SAME hierarchy object: smoothers replaced through change_smoothers, in order; the last pair is
+    # the configuration that is judged
+    if spec.get('history'):
+        from pyamg.relaxation.smoothing import change_smoothers
+        for pre, post in spec['history']:
+            change_smoothers(ml, _tup(pre), _tup(post))
+    return ml
 
 
 # ------------------------------------------------------------------------------------------------
@@ -561,10 +569,21 @@ def lean_confirm(ctx, En, e, e1):
     return _lean(ctx, [line])[0]
 
 
+def _final_smoothers(spec):
+    if spec.get('history'):
+        return spec['history'][-1]
+    return spec['kw'].get('presmoother'), spec['kw'].get('postsmoother')
+
+
 def _cfg(spec, ml, n):
     kw = spec['kw']
-    return (f'{spec["ctor"]} hierarchy ({len(ml.levels)} levels, n={n}, {spec["M"]["fam"]}), pre={kw.get("presmoother")}, '
-            f'post={kw.get("postsmoother")}, coarse={kw.get("coarse_solver")}')
+    pre, post = _final_smoothers(spec)
+    hist = ''
+    if spec.get('history'):
+        first = (kw.get('presmoother'), kw.get('postsmoother'))
+        hist = f' [after change_smoothers history: built with {first}, then ' + ' -> '.join(str(tuple(h)) for h in spec['history']) + ']'
+    return (f'{spec["ctor"]} hierarchy ({len(ml.levels)} levels, n={n}, {spec["M"]["fam"]}), pre={pre}, '
+            f'post={post}, coarse={kw.get("coarse_solver")}{hist}')
 
 
 def judge(ctx, spec, ml, En, cycles, rng, deep_checks=True):
@@ -705,7 +724,7 @@ def schwarz_fkey(spec, ex, facts):
 
 def spec_case(spec):
     return {'matrix': mat_to_case(spec['M']), 'ctor': spec['ctor'], 'kw': spec['kw'], 'npseed': spec['npseed'],
-            'decoy': bool(spec.get('decoy'))}
+            'decoy': bool(spec.get('decoy')), 'history': spec.get('history')}
 
 
 # ------------------------------------------------------------------------------------------------
@@ -811,7 +830,7 @@ def run_spec(ctx, spec, En, rng, cycles=None, report_ctor_error=True):
             spec = dict(spec, kw=dict(kw, coarse_solver='pinv'))
             kw = spec['kw']
             ml = build(spec)
-    pre, post = kw.get('presmoother'), kw.get('postsmoother')
+    pre, post = _final_smoothers(spec)
     for i, lv in enumerate(ml.levels[:-1]):
         pmax = np.abs(lv.P.data).max() if lv.P.nnz else 0.0
         if not np.isfinite(lv.P.data).all() or pmax > 1e8:
@@ -840,7 +859,7 @@ def run_spec(ctx, spec, En, rng, cycles=None, report_ctor_error=True):
     if cycles is None:
         cycles = [('V', 1), ('W', 1), ('F', int(rng.choice([1, 1, 2])))]
     for cyc, cpl in cycles:
-        ctx.case(key=_key(M['A'].data.tobytes(), M['A'].indices.tobytes(), ctor, repr(sorted(kw.items(), key=str)), cyc, cpl),
+        ctx.case(key=_key(M['A'].data.tobytes(), M['A'].indices.tobytes(), ctor, repr(sorted(kw.items(), key=str)), repr(spec.get('history')), cyc, cpl),
                  nontrivial=nl >= 2,
                  sample={'family': M['fam'], 'n': En.n, 'ctor': ctor, 'levels': nl, 'pre': pre, 'post': post,
                          'coarse': kw.get('coarse_solver'), 'cycle': cyc} if ctx.evaluations % 37 == 0 else None)
@@ -1134,11 +1153,102 @@ def part_relax(ctx, N):
 
 
 # ------------------------------------------------------------------------------------------------
+# part H: smoother-change histories on the SAME hierarchy object (change_smoothers called 1-3 times before the judged cycle)
+# ------------------------------------------------------------------------------------------------
+
+def _aniso(rng, eps, theta, typ, nx, ny):
+    from pyamg.gallery import stencil_grid
+    from pyamg.gallery.diffusion import diffusion_stencil_2d
+    A = _i32(sp.csr_array(stencil_grid(diffusion_stencil_2d(epsilon=eps, theta=theta, type=typ), (nx, ny), format='csr')))
+    A.sort_indices()
+    return {'A': A, 'B': None, 'fam': 'aniso', 'params': {'grid': [nx, ny], 'epsilon': eps, 'theta': theta, 'type': typ}}
+
+
+def _lvl0(sm, below):
+    """a block smoother with an explicit block size on level 0 only (the block size has to divide the level size)"""
+    return [sm, below]
+
+
+def core_histories(bs):
+    J = ('jacobi', {'omega': 4.0 / 3.0})
+    BJ = ('block_jacobi', {'omega': 4.0 / 3.0, 'blocksize': bs})
+    BG = ('block_gauss_seidel', {'sweep': 'symmetric', 'blocksize': bs})
+    R = ('richardson', {'omega': 4.0 / 3.0})
+    C = ('chebyshev', {'degree': 3})
+    S = ('schwarz', {'sweep': 'symmetric'})
+    G = ('gauss_seidel', {'sweep': 'forward'})
+    # (smoothers at construction, [change_smoothers calls ...]); the last entry is judged
+    return [
+        ((_lvl0(BJ, J), _lvl0(BJ, J)), [(J, J)]),
+        ((J, J), [(_lvl0(BJ, J), _lvl0(BJ, J))]),
+        ((_lvl0(BJ, J), J), []),
+        ((_lvl0(BG, G), _lvl0(BG, G)), [(J, J)]),
+        ((R, R), [(J, J)]),
+        ((C, C), [(J, J), (R, R)]),
+        ((J, J), [(R, R), (C, C)]),
+        ((S, S), [(G, G)]),
+        ((G, G), [(S, S), (_lvl0(BJ, J), _lvl0(BJ, J)), (J, J)]),
+    ]
+
+
+def part_history(ctx, N):
+    rng = ctx.np_rng
+    jobs = []
+    # fixed core (every seed): strongly anisotropic problems whose line blocks capture the strong couplings
+    k = 0
+    for eps, theta, typ, nx, ny in [(0.001, np.pi / 2, 'FE', 6, 6), (0.01, 0.0, 'FD', 5, 8), (0.001, 0.0, 'FE', 6, 6)]:
+        M = _aniso(rng, eps, theta, typ, nx, ny)
+        for bs in (ny, 2, 3):
+            if (nx * ny) % bs:
+                continue
+            for first, hist in core_histories(bs):
+                k += 1
+                if (bs == ny) or k % 3 == 0:       # every history with line blocks, a third of them with blocks of 2 / 3
+                    jobs.append((M, first, hist, CTORS[k % 4]))
+    # random draws: 1-3 changes between random smoother families on the property's families
+    for t in range(N):
+        fam = ['aniso', 'poisson2d', 'gram', 'graph_shift', 'aniso', 'elasticity2d_nu'][t % 6]
+        M = make_matrix(rng, fam, 64)
+        if M['A'].format == 'bsr':
+            M = dict(M, A=_i32(sp.csr_array(M['A'])))
+        n = M['A'].shape[0]
+        bs = int(rng.choice([b for b in (2, 3, 4, 5, 6) if n % b == 0] or [1]))
+
+        def draw():
+            sm = rand_smoother(rng, False, None)
+            if sm[0].startswith('block_') and bs > 1:
+                below = ('jacobi', {'omega': sm[1].get('omega', 1.0)}) if sm[0] == 'block_jacobi' else ('gauss_seidel', {'sweep': sm[1].get('sweep', 'forward')})
+                return _lvl0((sm[0], dict(sm[1], blocksize=bs)), below)
+            return sm
+        first = (draw(), draw())
+        hist = [(draw(), draw()) for _ in range(int(rng.integers(1, 4)))]
+        if t % 2 == 0:      # end on a spectral-radius-damped point smoother at the edge of its damping
+            last = [('jacobi', {'omega': 4.0 / 3.0}), ('richardson', {'omega': 4.0 / 3.0}), ('chebyshev', {'degree': 2})][(t // 2) % 3]
+            hist[-1] = (last, last)
+        jobs.append((M, first, hist, CTORS[t % 4]))
+    for j, (M, first, hist, ctor) in enumerate(jobs):
+        if ctx.time_left() < 8 or _enough(ctx):
+            break
+        En = Energy(M['A'].toarray())
+        if not En.hpd:
+            continue
+        kw = rand_ctor(rng, M, ctor, False)
+        if isinstance(kw.get('aggregate'), tuple) and kw['aggregate'][0] == 'lloyd':
+            kw['aggregate'] = 'standard'
+        kw['coarse_solver'] = 'pinv'
+        kw['presmoother'], kw['postsmoother'] = first
+        spec = {'M': M, 'ctor': ctor, 'kw': kw, 'npseed': int(rng.integers(0, 2**31 - 1)), 'history': [list(h) for h in hist]}
+        ctx.feat(f'history:{len(hist)}_changes')
+        run_spec(ctx, spec, En, rng, cycles=[('V', 1)] if j % 2 else [('W', 1), ('F', 1)])
+
+
+# ------------------------------------------------------------------------------------------------
 
 def run(ctx):
     import pyamg  # noqa: F401
     part_model(ctx, ctx.scale(24, 240))
     part_relax(ctx, ctx.scale(50, 1000))
+    part_history(ctx, ctx.scale(18, 500))
     part_edge(ctx, ctx.scale(63, 900))
     part_search(ctx, ctx.scale(50, 1300), 150 if not ctx.quick else 110)
 
@@ -1181,9 +1291,10 @@ def replay(ctx, data):
             ctx.violation(f'relaxation.{case["method"]} increases the energy of the stored error: {En.en(e):.12g} -> {En.en(xs - x):.12g}', case)
         return
     M = mat_from_case(case['matrix'])
-    spec = {'M': M, 'ctor': case['ctor'], 'kw': case['kw'], 'npseed': case['npseed'], 'decoy': case.get('decoy', False)}
+    spec = {'M': M, 'ctor': case['ctor'], 'kw': case['kw'], 'npseed': case['npseed'], 'decoy': case.get('decoy', False),
+            'history': case.get('history')}
     print('replaying', case['ctor'], {k: v for k, v in case['kw'].items()}, 'on', M['fam'], M['A'].shape, 'cycle', case.get('cycle'),
-          'mode', case.get('mode'))
+          'mode', case.get('mode'), 'history', case.get('history'))
     En = Energy(M['A'].toarray())
     cycles = [(case['cycle'], case.get('cycles_per_level', 1))] if case.get('cycle') else None
     ml = run_spec(ctx, spec, En, ctx.np_rng, cycles=cycles)
